@@ -124,20 +124,46 @@ class Oracle:
             self.violations.append({"cls": cls, "key": key, "detail": detail})
 
     # ---- inputs
-    def sample_args(self, params):
+    def boundary_values(self, g):
+        """Finite numeric constants of the graph, their negations and float neighbours: comparisons in the
+        algorithms are against such thresholds, so equality cases need them as inputs."""
+        import math
+
+        out = []
+        for e in I.walk(g, self.Expr):
+            if e.kind == "constant":
+                v = e.operands[0]
+                if isinstance(v, (int, float)) and not isinstance(v, bool):
+                    v = float(v)
+                    if v == v and abs(v) != math.inf:
+                        out += [v, -v, math.nextafter(v, math.inf), math.nextafter(v, -math.inf)]
+        return out[:200]
+
+    def sample_args(self, params, boundary=()):
         import numpy
+
+        def dbl():
+            if boundary and self.rng.random() < 0.25:
+                return self.rng.choice(boundary)
+            return I.random_double(self.rng)
+
+        def flt():
+            if boundary and self.rng.random() < 0.25:
+                with numpy.errstate(all="ignore"):
+                    return float(numpy.float32(self.rng.choice(boundary)))
+            return I.random_float32(self.rng)
 
         args = []
         for p in params:
             t = str(p.operands[1])
             if t in ("float", "float64"):
-                args.append(I.random_double(self.rng))
+                args.append(dbl())
             elif t == "float32":
-                args.append(I.random_float32(self.rng))
+                args.append(flt())
             elif t in ("complex", "complex128"):
-                args.append(complex(I.random_double(self.rng), I.random_double(self.rng)))
+                args.append(complex(dbl(), dbl()))
             elif t == "complex64":
-                args.append(complex(I.random_float32(self.rng), I.random_float32(self.rng)))
+                args.append(complex(flt(), flt()))
             else:
                 raise I.Uninterpretable("parameter type " + t)
         return args
@@ -184,8 +210,9 @@ class Oracle:
         it = I.PyInterp(self.Expr)
         body = g.operands[-1]
         params = g.operands[1:-1]
+        bnd = self.boundary_values(g)
         for _ in range(self.nsamples):
-            args = self.sample_args(params)
+            args = self.sample_args(params, bnd)
             it.bind(g, args)
             exp_exc = None
             try:
@@ -240,8 +267,9 @@ class Oracle:
         it = I.NpInterp(self.Expr)
         body = g.operands[-1]
         params = g.operands[1:-1]
+        bnd = self.boundary_values(g)
         for _ in range(self.nsamples):
-            args = self.sample_args(params)
+            args = self.sample_args(params, bnd)
             it.bind(g, args)
             try:
                 exp = it.evaluate(body)
@@ -344,9 +372,10 @@ class Oracle:
                 run.restype = None
                 body = g.operands[-1]
                 params = g.operands[1:-1]
+                bnd = self.boundary_values(g)
                 try:
                     for _ in range(self.nsamples):
-                        args = self.sample_args(params)
+                        args = self.sample_args(params, bnd)
                         it.bind(g, args)
                         try:
                             exp = it.lazy(body)
